@@ -18,6 +18,8 @@ package build
 
 import (
 	"fmt"
+	"go/constant"
+	"go/types"
 	"io"
 	"os"
 	"os/exec"
@@ -156,6 +158,11 @@ func (c *context) collectPackageInputs(m *manifestBuilder, pkg *aPackage) error 
 
 	// Other files (C, assembly, etc.)
 	otherFiles := append([]string{}, p.OtherFiles...)
+	// C/C++ sources named by LLGoFiles live in sub-directories that go list does not report.
+	otherFiles = append(otherFiles, pkgLinkFileInputs(p)...)
+	if pkg.AltPkg != nil {
+		otherFiles = append(otherFiles, pkgLinkFileInputs(pkg.AltPkg.Package)...)
+	}
 	sfiles, err := pkgSFiles(c, p)
 	if err != nil {
 		return fmt.Errorf("list sfiles: %w", err)
@@ -238,6 +245,61 @@ func (c *context) dependencyFingerprint(dep *packages.Package) (depEntry, error)
 	}
 	entry.Fingerprint = temp.Fingerprint
 	return entry, nil
+}
+
+// pkgLinkFileInputs returns the sources named by the package's LLGoFiles constant
+// together with the other regular files of their directories (headers pulled in
+// with #include "..." normally sit next to the source). They are compiled into the
+// package archive, so they have to take part in its fingerprint.
+func pkgLinkFileInputs(pkg *packages.Package) []string {
+	if pkg == nil || pkg.Types == nil || len(pkg.GoFiles) == 0 {
+		return nil
+	}
+	c, ok := pkg.Types.Scope().Lookup("LLGoFiles").(*types.Const)
+	if !ok || c.Val().Kind() != constant.String {
+		return nil
+	}
+	files := constant.StringVal(c.Val())
+	if strings.HasPrefix(files, "$") { // "$(pkg-config --cflags xxx): file1; file2"
+		if pos := strings.IndexByte(files, ':'); pos > 0 {
+			files = files[pos+1:]
+		}
+	}
+	pkgDir := filepath.Dir(pkg.GoFiles[0])
+	seen := make(map[string]bool)
+	var out []string
+	add := func(path string) {
+		if !seen[path] {
+			seen[path] = true
+			out = append(out, path)
+		}
+	}
+	for _, file := range strings.Split(files, ";") {
+		file = strings.TrimSpace(file)
+		if file == "" {
+			continue
+		}
+		cFile := filepath.Join(pkgDir, file)
+		if _, err := os.Stat(cFile); err != nil {
+			continue // reported when the file is compiled
+		}
+		add(cFile)
+		dir := filepath.Dir(cFile)
+		if dir == pkgDir || seen[dir+string(filepath.Separator)] {
+			continue
+		}
+		seen[dir+string(filepath.Separator)] = true
+		entries, err := os.ReadDir(dir)
+		if err != nil {
+			continue
+		}
+		for _, e := range entries {
+			if e.Type().IsRegular() {
+				add(filepath.Join(dir, e.Name()))
+			}
+		}
+	}
+	return out
 }
 
 func moduleVersion(mod *gopackages.Module) string {
